@@ -91,6 +91,9 @@ class World:
             def __repr__(s):
                 return f"<M{mid}>"
 
+        if mid % 7 in (1, 2, 4, 5):
+            # the manager is an instance of a subclass: its exit method (and whatever alias or decorator it goes by) is inherited
+            Mgr = type("Mgr", (Mgr,), {})
         m = Mgr()
         self.mgrs[mid] = m
         return m
@@ -178,6 +181,8 @@ class World:
             def __repr__(s):
                 return f"<AM{mid}>"
 
+        if mid % 7 in (1, 2, 4, 5):
+            AMgr = type("AMgr", (AMgr,), {})           # as for Mgr: everything inherited
         m = AMgr()
         self.mgrs[mid] = m
         return m
